@@ -192,6 +192,56 @@ def rows_cut_fn(strand):
     return fn
 
 
+def rows_minus_chunk_fn(strand):
+    """gene (coding 2-exon transcript) and feature collection on a chunk that is placed on the MINUS strand of the chromosome and holds them completely:
+    chromosome-mode rows are exactly those of the parent-less twin (coordinates, strand, phase); chunk-relative rows are their mirror image (x -> w+Lc-x),
+    with the strand of the chunk coordinate system on EVERY row and the same phase on the same block. Realised leg."""
+    Lc = 30
+
+    def fn(**kw):
+        names = sorted(kw)
+        vals = concretize(*[kw[n] for n in names])
+        kw = dict(zip(names, vals if isinstance(vals, list) else [vals]))
+        with untraced():
+            return bool(body(**kw))
+
+    def body(s0, l0, g, l1, co, ce, w):
+        ex = [(s0, s0 + l0), (s0 + l0 + g, s0 + l0 + g + l1)]
+        cds = [(ex[0][0] + co, ex[0][1]), (ex[1][0], ex[1][1] - ce)]
+        from harness.cdsmodel import consistent_frames
+
+        frames = [CDSFrame(f) for f in consistent_frames([c[1] - c[0] for c in cds], strand, 0)]
+
+        def build(par):
+            t = TranscriptInterval([e[0] for e in ex], [e[1] for e in ex], strand, [c[0] for c in cds], [c[1] for c in cds], frames, guid=811, transcript_id="tx1",
+                                   sequence_name="chr1", parent_or_seq_chunk_parent=par() if par else None)
+            gene = GeneInterval([t], guid=810, gene_id="gid", sequence_name="chr1", parent_or_seq_chunk_parent=par() if par else None)
+            fc = FeatureIntervalCollection([FeatureInterval([ex[0][0]], [ex[1][1]], strand.reverse(), guid=813, feature_name="f1", sequence_name="chr1",
+                                                            parent_or_seq_chunk_parent=par() if par else None)], guid=812, feature_collection_name="fc",
+                                           sequence_name="chr1", parent_or_seq_chunk_parent=par() if par else None)
+            return AnnotationCollection(genes=[gene], feature_collections=[fc], sequence_name="chr1", parent_or_seq_chunk_parent=par() if par else None)
+
+        def rows(coll, mode):
+            with warnings.catch_warnings():
+                warnings.simplefilter("ignore")
+                out = []
+                for r in coll.to_gff(chromosome_relative_coordinates=mode):
+                    c = str(r).split("\t")
+                    out.append((c[2], int(c[3]), int(c[4]), c[6], c[7]))
+                return out
+
+        plain = rows(build(None), True)
+        onchunk = build(lambda: chunk_parent(w, Lc, strand=MINUS))
+        if sorted(rows(onchunk, True)) != sorted(plain):
+            return False
+        flip = {"+": "-", "-": "+", ".": "."}
+        want = sorted((t, w + Lc - e + 1, w + Lc - s + 1, flip[st], ph) for t, s, e, st, ph in plain)
+        got = rows(onchunk, False)
+        return sorted(got) == want and [r[1] for r in got] == sorted(r[1] for r in got)
+
+    return fn
+
+
 def rows_pre(mode):
     def pre(**kw):
         if not (kw["s0"] >= 0 and kw["l0"] >= 1 and kw["g"] >= 1 and kw["l1"] >= 1 and kw["fs"] >= 0 and kw["fl"] >= 1):
@@ -647,6 +697,14 @@ def obligations(tier):
                             "1-based interval inside the chunk and the exon rows are exactly the non-empty in-window parts of the exons",
                        bounds="2 exons, chunk length 30 at a symbolic offset, unbounded symbolic coordinates (at least one exon base inside the window)",
                        examples=[dict(s0=2, l0=6, g=4, l1=8, w=5), dict(s0=2, l0=6, g=4, l1=8, w=8), dict(s0=20, l0=6, g=4, l1=80, w=0)]))
+    for strand in (PLUS, MINUS):
+        out.append(Obl("rows_on_minus_chunk_%s" % sname(strand), rows_minus_chunk_fn(strand), dict(s0=int, l0=int, g=int, l1=int, co=int, ce=int, w=int),
+                       lambda s0, l0, g, l1, co, ce, w: 3 <= w and w <= 5 and w <= s0 and s0 <= w + 3 and 4 <= l0 and l0 <= 6 and 2 <= g and g <= 3 and 4 <= l1 and l1 <= 6
+                       and 0 <= co and co <= 2 and 0 <= ce and ce <= 2, budget=900, cost=120,
+                       desc="gene with a coding 2-exon transcript and a feature collection on a chunk placed on the MINUS strand: chromosome-mode rows equal the parent-less "
+                            "twin's, chunk-relative rows are their mirror image with the strand of the chunk coordinate system on every row and unchanged phases, sorted by start",
+                       bounds="exons 4..6 nt, intron 2..3, CDS start / end 0..2 nt inside the outer exons, chunk of 30 nt at 3..5 holding everything (realised)",
+                       examples=[dict(s0=6, l0=5, g=2, l1=6, co=1, ce=2, w=4), dict(s0=3, l0=4, g=3, l1=4, co=0, ce=0, w=3)]))
     out.append(Obl("escape_tables", _smt_escape, {}, None, kind="smt", twin=False, cost=3, concrete=_escape_concrete,
                    desc="live escape tables: pattern alternatives == map keys; every reserved character (tab, newline, CR, ; = > space %% and , in the "
                         "with-comma map) is a key (z3 over all code points); every image is %% + the two upper-case hex digits of the code point",
